@@ -150,9 +150,13 @@ def detect_encoding(
 
 def read_xml_encoding(body: bytes) -> str | None:
     if body.startswith(b'<?xml'):
-        match = RE_ENCODING.search(body)
-        if match is not None:
-            return match.group('encoding').decode('ascii')
+        # only the declaration itself can name the encoding, not an
+        # "encoding=..." that happens to appear later in the document
+        end = body.find(b'?>')
+        if end != -1:
+            match = RE_ENCODING.search(body, 0, end)
+            if match is not None:
+                return match.group('encoding').decode('ascii')
     return None
 
 
